@@ -41,6 +41,7 @@ class _Wire:
 
         def write_bytes(interp, node, args, kwargs, cfg, out):
             cur = cfg.heap.get("$wire", Const(b""))
+            cfg = cfg.hset("$writes", Const(cfg.heap.get("$writes", Const(0)).v + 1))
             if isinstance(args[0], Const):
                 return [(cfg.hset("$wire", Const(cur.v + bytes(args[0].v))), NONE)]
             return [(cfg.hset("$wire", Sym(("unknown-bytes",))), NONE)]
@@ -283,6 +284,27 @@ def run(ctx):
         label = mtype + ("" if store_history is None else f" store_history={store_history}")
         ctx.check(not problems and npaths > 0, "R19.4", uid, f"{label}: reply discipline on {npaths} paths",
                   msg=f"shell_handler for {label}: {sorted(set(problems))[:3]}", key=f"reply discipline {label}", node=hf, rel="jupyter_kernel.py", sample={"paths": npaths})
+    ctx.rule("R19.6", "a whole message reaches the transport in one write: concurrent senders on one socket (shell replies and stdout forwarding share iopub) cannot interleave frames", floor=4)
+    for meth, arg, label in (("send_multipart", ListV([Const(b"a"), Const(b"bb" * 200), Const(b"")]), "three frames"), ("send_multipart", ListV([Const(b"only")]), "one frame"),
+                             ("send", Const(b"payload"), "single-frame message with its delimiter"), ("send", Const(b"x" * 300), "long single-frame message")):
+        pol = _Wire().policy(program)
+        out = run_flow(program, f"{Z}.{meth}", pol, args={"self": ObjV("self", "ZmqSocket"), ("parts" if meth == "send_multipart" else "msg"): arg}, heap={"$wire": Const(b"")})
+        writes = sorted({c.heap.get("$writes", Const(0)).v for c in out.get("return")})
+        ctx.check(writes == [1] and not out.get("raise"), "R19.6", f"{Z}.{meth}", f"{meth}: {label} written with one write_bytes",
+                  msg=f"{Z}.{meth} ({label}) hands the message to the transport in {writes} separate awaited writes: write_bytes awaits drain(), another task sending on the same socket can run "
+                  f"in between and its frames end up inside this message", key=f"single write {meth} {label}", node=program.func(f"{Z}.{meth}"), rel="jupyter_kernel.py")
+
+    ctx.rule("R19.7", "every message can be serialised: the JSON text is ASCII-escaped (json.dumps default) or encoded with an error handler, so no text a script produces makes a send fail", floor=1)
+    enc = program.func("jupyter_kernel.py::Kernel.send.encode")
+    dumps = [n for n in body_walk(enc) if isinstance(n, ast.Call) and call_name(n) == "json.dumps"]
+    s2b = program.func("jupyter_kernel.py::str_to_bytes")
+    encodes = [n for n in body_walk(s2b) if isinstance(n, ast.Call) and isinstance(n.func, ast.Attribute) and n.func.attr == "encode"]
+    tolerant = bool(encodes) and all(any(k.arg == "errors" for k in n.keywords) or len(n.args) > 1 for n in encodes)
+    raw = [n for n in dumps if any(k.arg == "ensure_ascii" and not (isinstance(k.value, ast.Constant) and k.value.value is True) for k in n.keywords)]
+    ctx.check(bool(dumps) and (not raw or tolerant), "R19.7", "jupyter_kernel.py::Kernel.send.encode", "message JSON is ASCII-escaped before the UTF-8 encode",
+              msg=f"Kernel.send.encode: `{short(raw[0]) if raw else ''}` keeps non-ASCII characters and str_to_bytes encodes strictly: a lone surrogate in printed text, an exception message or the cell "
+              f"source raises UnicodeEncodeError inside the send - the reply and the idle status are lost and the shell channel is closed", key="json ascii escaping", node=enc, rel="jupyter_kernel.py")
+
     ctx.rule("R19.5", "a subscriber connection that is closed is also taken out of the broadcast set (a later broadcast to a closed writer resets the shell channel)", floor=1)
     uid = "jupyter_kernel.py::Kernel.iopub_listen"
     pol = FlowPolicy(program, events=["iopub_socket.close"], may_raise_all=True, cancel=True, locals_={"self", "iopub_socket"}, record_atoms=False)
